@@ -378,6 +378,24 @@ def _batch_shard(arg):
                         if got is not exp_eq:
                             st.violation("C03/batch/verdict-differs-from-equation", case, got, exp_eq)
                     st.outcomes[(size, nbad, got if isinstance(got, bool) else "raise")] += 1
+        # out-of-range members (s + n, s = n, r + p) at every position of valid batches: invalid alone, so invalid together
+        good = [m for m in pool if m[4]]
+        for size in (2, 3):
+            for members in itertools.product(range(len(good)), repeat=size):
+                for pos in range(size):
+                    for kind, (dr, ds) in (("s+n", (0, n)), ("r+p", (p, 0)), ("s+2n", (0, 2 * n))):
+                        st.evals += 1
+                        st.nontrivial += 1
+                        batch = [good[i] for i in members]
+                        sigs = [ssa.Sig(m[2], m[3], ec, check_validity=False) for m in batch]
+                        sigs[pos] = ssa.Sig(batch[pos][2] + dr, batch[pos][3] + ds, ec, check_validity=False)
+                        with rebound(secrets, "randbelow", lambda k: 1 % k):
+                            try:
+                                got = ssa.batch_verify_([m[0] for m in batch], [m[1] for m in batch], sigs)
+                            except Exception as e:  # noqa: BLE001
+                                got = "raised " + type(e).__name__
+                        if got is not False:
+                            st.violation("C03/batch/out-of-range-member-accepted/" + kind, {"curve": ck, "members": members, "pos": pos}, got, False)
         st.sample({"curve": ck, "pool": len(pool)})
     return st
 
@@ -421,6 +439,29 @@ def _batch_k1_shard(arg):
                         got = ssa.batch_verify_([m[0] for m in bad], [m[1] for m in bad], [ssa.Sig(m[2], m[3]) for m in bad])
                         if got is not False:
                             st.violation("C03/batch/secp256k1-bad-member-accepted", {"size": size, "pos": pos, "coeff": coeff, "bindings": serving}, got, False)
+                    # a member outside BIP340's ranges (s >= n, r >= p) is invalid on its own even where the equation,
+                    # which only sees s mod n, holds: one such member at every position
+                    for pos in positions:
+                        for kind, (dr, ds) in (("s+n", (0, n)), ("r+p", (B.P_K1, 0))):
+                            m = members[pos]
+                            if m[2] + dr >= 1 << 256 or m[3] + ds >= 1 << 256:
+                                continue
+                            st.evals += 1
+                            st.nontrivial += 1
+                            sigs = [ssa.Sig(x[2], x[3]) for x in members]
+                            sigs[pos] = ssa.Sig(m[2] + dr, m[3] + ds, check_validity=False)
+                            try:
+                                got = ssa.batch_verify_([x[0] for x in members], [x[1] for x in members], sigs)
+                            except Exception as e:  # noqa: BLE001
+                                got = "raised " + type(e).__name__
+                            try:
+                                single = ssa.verify_(m[0], m[1], sigs[pos])
+                            except Exception as e:  # noqa: BLE001
+                                single = "raised " + type(e).__name__
+                            if single is not False:
+                                st.violation("C03/range/out-of-range-member-verifies-alone/" + kind, {"size": size, "pos": pos, "bindings": serving}, single, False)
+                            if got is not False:
+                                st.violation("C03/batch/out-of-range-member-accepted/" + kind, {"size": size, "pos": pos, "coeff": coeff, "bindings": serving}, got, False)
                     # a duplicated member is still a valid batch
                     dup = members + [members[0]]
                     st.evals += 1
